@@ -393,7 +393,11 @@ def glue_paths(n, edges, m, second=None, junk_frames=False, max_paths=48, extra_
             }
             shares = any(np.shares_memory(a1.position, a2.position) for a1 in res._residues[0] for mol in (tgt, arg, ref)
                          for r_ in mol._residues for a2 in r_)
-        return {"out": out, "eq": dict(xm._equivalences), "stubs": st, "n_cb_init": n_cb_init, "frame": frame_ok,
+        eq = getattr(xm, "_equivalences", None)          # private: when absent, the anchors are the stub's picks (one per target atom, in target order)
+        eq = dict(eq) if isinstance(eq, dict) else ({j: k for j, k in enumerate(picks[:m])} if len(picks) >= m else None)
+        if eq is None:
+            raise S.SymError("the anchor assignment of the map cannot be observed (no _equivalences, no picks)")
+        return {"out": out, "eq": eq, "stubs": st, "n_cb_init": n_cb_init, "frame": frame_ok,
                 "out_first": out_first, "n_cb_first": n_cb_first, "xm": xm,
                 "shares": shares, "res": res, "arg": arg, "picks": picks}
 
